@@ -238,6 +238,11 @@ func scenarios(check string) []scenario {
 		// NOT the last of the victim's peers (three parties; the full three-party catalogue is in the thorough tier)
 		l = append(l, scenario{Name: "cmp-keygen/n3/t1/share", Proto: "cmp-keygen", N: 3, T: 1, Cost: 2, OnlyPaths: []string{"/Share"}, OnlyOps: []string{"int-plus1", "sc-plus1", "int-flip-mid", "bit-flip"}})
 	}
+	if check == "C03" || check == "C04" {
+		// the openings of the last round of the offline presigning (presignature id and its decommitment, S share)
+		l = append(l, scenario{Name: "cmp-presign/n2/t1/last-round-openings", Proto: "cmp-presign", N: 2, T: 1, Cost: 2,
+			OnlyPaths: []string{"/PresignatureID", "/DecommitmentID", "/S"}})
+	}
 	add("cmp-sign", 2, 1, 2) // the largest quick-tier catalogue comes last: an internal deadline, if ever hit, cuts only it
 	if vkit.Thorough() {
 		if check == "C04" {
